@@ -88,7 +88,8 @@ int cmd_off(const Args& a) {
     } else {
       int np = (int)r.range(1, 3);
       for (int k = 0; k < np; ++k) { Path64 p; int nv = (int)r.range(1, 5); int tries = 0;
-        do { p.clear(); for (int i = 0; i < nv; ++i) p.emplace_back((int64_t)(300 * k + r.range(0, 64)), (int64_t)r.range(0, 64)); } while (!turn_ok_path(p, false) && ++tries < 200);
+        bool ringlike = nv >= 4 && r.range(0, 3) == 0;    // a ring given as an OPEN path: last vertex = first vertex
+        do { p.clear(); for (int i = 0; i < nv; ++i) p.emplace_back((int64_t)(300 * k + r.range(0, 64)), (int64_t)r.range(0, 64)); if (ringlike) p.back() = p.front(); } while (!turn_ok_path(p, false) && ++tries < 200);
         if (tries < 200) in.push_back(p); }
       if (in.empty()) continue;
       for (int j = 0; j < (int)argi(a, "nparam", 12); ++j) {
